@@ -80,6 +80,15 @@ CHECKS = {
                   'property domain. Level other: ground part + one known finding (zero entry in the 2015 women PV row).',
              note=_TB + ' Case variants that are not event codes (e.g. 5m for 5 miles) may be refused.',
              technique='contract-based deductive verification (symbolic execution with exact-rational age + float proxy -> LRA -> z3) + complete ground evaluation'),
+ 'C15': dict(category='other',
+             text='For a symbolic whole-metre distance in [20 m, 400 km], per table x gender (x sampled ages for the factor): the real '
+                  'calculate_factor / world_best never raise; when two rows adjacent in the table scan bracket the distance, the factor lies '
+                  'between their factors and the open best between their bests and is increasing inside the bracket (z3 LRA/NRA over the '
+                  'distance, certified float error); both table ends use the end row. A few float-comparison error-zone paths of world_best '
+                  '(distance exactly on a tabulated one) stay undecided and are covered by the stand-in on the real code: level other.',
+             note=_TB + ' get_distance of the queried code by contract (symbolic distance); ages sampled {30, 47.5, 80, 100}; '
+                  'reading of "nearest shorter/longer" = rows adjacent in the table scan that bracket the distance column.',
+             technique='contract-based deductive verification (symbolic execution with float proxy, path-sensitive bounds -> LRA/NRA -> z3) + bounded stand-in for undecided paths'),
 }
 _NYB = 'check not built yet in this build round (planned, see DESIGN.md §5); no claim is made'
-NOT_APPLICABLE = {p: _NYB for p in ['C02','C03','C07','C08','C10','C12','C15','C16','C18']}
+NOT_APPLICABLE = {p: _NYB for p in ['C02','C03','C07','C08','C10','C12','C16','C18']}
